@@ -282,3 +282,62 @@ def lut_def():
     out = call(DET + 'apply_lut', img, lut)
     check('shape', shape_is(out, H, W))
     check('value', elem(out, i, j) == elem(lut, elem(img, i, j)))
+
+
+@harness('C16', 'bounded/integer-containers', kind='bounded', variants=['bindown-tile', 'expose-dtype'],
+         fuc=['prysm.detector.bindown', 'prysm.detector.tile', 'prysm.detector.Detector.expose'])
+def bounded_integer_containers(which):
+    """BOUNDED (the deductive model treats integers as mathematical, assumption A2; this runs the real functions on real
+    fixed-width containers): seeded uint8 / uint16 / int32 / float32 / float64 frames of shape 2..12 per axis times the binning
+    factor 1..4 per axis, bright enough to overflow their container when summed: bindown(sum) conserves the exact total,
+    bindown(avg) the exact level, tile(avg) (= repeat) is the adjoint of bindown(sum), tile conserves total (sum) / level (avg); expose returns an unsigned
+    container wide enough for 2^bits - 1 and stays in range for dark frames with read noise larger than the bias."""
+    import numpy as np
+    rng = np.random.default_rng(Int('seed', 0, 10 ** 6))
+    det = get('prysm.detector')
+    if which == 'bindown-tile':
+        fy, fx = int(rng.integers(1, 5)), int(rng.integers(1, 5))
+        m, n = int(rng.integers(2, 13)) * fy, int(rng.integers(2, 13)) * fx
+        dt = [np.uint8, np.uint16, np.int32, np.float32, np.float64][int(rng.integers(0, 5))]
+        if np.issubdtype(dt, np.integer):
+            info = np.iinfo(dt)
+            hi = info.max
+            a = rng.integers(int(hi * 0.6), hi, size=(m, n), endpoint=True).astype(dt)      # near saturation
+        else:
+            a = (rng.random((m, n)) * 1e4).astype(dt)
+        exact = [[sum(int(v) if np.issubdtype(dt, np.integer) else float(v) for v in a[i * fy:(i + 1) * fy, j * fx:(j + 1) * fx].ravel())
+                  for j in range(n // fx)] for i in range(m // fy)]
+        exact = np.array(exact, dtype=object if np.issubdtype(dt, np.integer) else float)
+        tol = dict(rtol=1e-5 if dt is np.float32 else 1e-12, atol=0)
+        bs = det.bindown(a, (fy, fx), mode='sum')
+        ba = det.bindown(a, (fy, fx), mode='avg')
+        if np.issubdtype(dt, np.integer):
+            check('bindown-sum-is-the-exact-block-total', bool(all(int(bs[i, j]) == exact[i, j] for i in range(bs.shape[0]) for j in range(bs.shape[1]))))
+            check('bindown-sum-conserves-the-total', int(sum(int(v) for v in bs.ravel())) == int(sum(int(v) for v in a.ravel())))
+        else:
+            check('bindown-sum-is-the-exact-block-total', bool(np.allclose(bs.astype(float), exact.astype(float), **tol)))
+            check('bindown-sum-conserves-the-total', bool(np.isclose(float(bs.astype(float).sum()), float(a.astype(float).sum()), **tol)))
+        check('bindown-avg-is-the-block-level', bool(np.allclose(ba.astype(float), exact.astype(float) / (fy * fx), rtol=1e-5 if dt is np.float32 else 1e-12)))
+        small = a[:m // fy, :n // fx]
+        ts, ta = det.tile(small, (fy, fx), scaling='sum'), det.tile(small, (fy, fx), scaling='avg')
+        # tile(scaling='sum') spreads each sample over its block (total conserved); tile(scaling='avg') repeats the level
+        check('tile-sum-conserves-the-total', bool(np.isclose(float(np.asarray(ts, dtype=float).sum()), float(small.astype(float).sum()), rtol=1e-5)))
+        check('tile-avg-repeats-the-level', bool((np.asarray(ta)[::fy, ::fx] == small).all() and np.asarray(ta).shape == (small.shape[0] * fy, small.shape[1] * fx)))
+        # adjointness on these containers: <bindown_sum(a), y> = <a, tile_avg(y)>  (tile_avg = repeat)
+        yv = rng.integers(0, 5, size=bs.shape)
+        lhs = sum(int(b) * int(v) for b, v in zip(np.asarray(bs, dtype=object).ravel(), yv.ravel())) if np.issubdtype(dt, np.integer) else float((bs.astype(float) * yv).sum())
+        rhs_arr = det.tile(yv, (fy, fx), scaling='avg')
+        rhs = sum(int(b) * int(v) for b, v in zip(a.ravel(), np.asarray(rhs_arr).ravel())) if np.issubdtype(dt, np.integer) else float((a.astype(float) * rhs_arr).sum())
+        check('bindown-sum-adjoint-to-tile-avg', bool(lhs == rhs) if np.issubdtype(dt, np.integer) else bool(np.isclose(lhs, rhs, rtol=1e-5)))
+    else:
+        bits = int(rng.choice([8, 10, 12, 14, 16, 24, 32]))
+        bias = float(rng.choice([0.0, 1.0, 3.0, 100.0]))
+        rn = float(rng.choice([0.0, 2.0, 6.0, 30.0]))
+        fwc = float(rng.choice([1e3, 5e4, 1e9]))
+        gain = float(rng.choice([0.05, 1.0, 4.0]))
+        d = det.Detector(dark_current=float(rng.choice([0.0, 10.0])), read_noise=rn, bias=bias, fwc=fwc, conversion_gain=gain, bits=bits, exposure_time=1.0)
+        img = rng.random((int(rng.integers(1, 9)), int(rng.integers(1, 9)))) * float(rng.choice([0.0, 1.0, 1e3, 1e7, 1e12]))
+        out = d.expose(img)
+        check('unsigned-container-wide-enough', bool(out.dtype.kind == 'u' and np.iinfo(out.dtype).max >= 2 ** bits - 1))
+        check('DN-in-range-on-real-containers', bool(out.min() >= 0 and int(out.max()) <= 2 ** bits - 1))
+        check('shape', out.shape == img.shape)
